@@ -13,9 +13,9 @@ from ..core import Check, Space
 # ------------------------------------------------------------------------------------ comprehensions
 CONDS = {"Jet": ["{x}.pt > 1", "{x}.eta > {o}.a", "len([t for t in {x}.tr if t.q > 0]) > 0", "{x}.pt > {x}.eta"],
          "Trk": ["{x}.q > 1", "{x}.q > {o}.a"]}
-ELTS = {"Jet": ["{x}.pt", "{x}", "{x}.pt + {o}.a", "({x}.pt, {x}.eta)", "[t.q for t in {x}.tr]",
+ELTS = {"Jet": ["{x}.pt", "{x}", "{o}", "{x}.pt + {o}.a", "({x}.pt, {x}.eta)", "[t.q for t in {x}.tr]",
                 "len([t for t in {x}.tr if t.q > 1])", "[t.q + {x}.pt for t in {x}.tr if t.q > {x}.eta]"],
-        "Trk": ["{x}.q", "{x}.q + {o}.a", "{x}"]}
+        "Trk": ["{x}.q", "{x}.q + {o}.a", "{x}", "{o}"]}
 ITERS = [("Jet", "{o}.jets"), ("Trk", "{o}.trks"), ("Jet", "[j2 for j2 in {o}.jets if j2.pt > 0]"),
          ("Jet", "(j3 for j3 in {o}.jets)")]
 
@@ -34,7 +34,7 @@ def comprehensions(max_ifs, names):
                             ifs = "".join(f" if {c.format(x=x, o='e')}" for c in conds)
                             # the iterable is evaluated in the enclosing scope: outer e even when x == 'e'
                             body = f"{elt.format(x=x, o=('e' if x != 'e' else 'e'))} for {x} in {it.format(o='e')}{ifs}"
-                            if x == "e" and ("e.a" in body.split(" for ")[0] or any("e.a" in c for c in conds)):
+                            if x == "e" and (elt in ("{o}",) or "e.a" in body.split(" for ")[0] or any("e.a" in c for c in conds)):
                                 continue  # inside, 'e' is the target: outer references are not expressible
                             out.append(f"[{body}]" if kind == "list" else f"({body})")
     return sorted(set(out))
@@ -59,7 +59,7 @@ def dc_models():
     out = []
     for n in (1, 2, 3):
         for ndef in range(0, n + 1):
-            for kind in ("dataclass", "namedtuple"):
+            for kind in ("dataclass", "namedtuple", "dc-initfalse", "dc-kwonly"):
                 out.append((kind, n, ndef))
     return out
 
@@ -69,6 +69,14 @@ def dc_source(kind, n, ndef):
     for i in range(n):
         d = f" = {100 + i}" if i >= n - ndef else ""
         fields.append(f"    f{i}: int{d}")
+    if kind == "dc-initfalse":
+        # a field that is not a constructor parameter sits between the others
+        fields.insert(min(1, len(fields)), "    hidden: int = field(init=False, default=7)")
+        return "from dataclasses import dataclass, field\n@dataclass\nclass DC:\n" + "\n".join(fields) + "\n"
+    if kind == "dc-kwonly":
+        # the first field is keyword-only: the signature lists it last
+        fields.insert(0, "    kw: int = field(default=9, kw_only=True)")
+        return "from dataclasses import dataclass, field\n@dataclass\nclass DC:\n" + "\n".join(fields) + "\n"
     if kind == "dataclass":
         return "from dataclasses import dataclass\nfrom typing import NamedTuple\n@dataclass\nclass DC:\n" + "\n".join(fields) + "\n"
     return "from dataclasses import dataclass\nfrom typing import NamedTuple\nclass DC(NamedTuple):\n" + "\n".join(fields) + "\n"
@@ -226,7 +234,7 @@ class C06(Check):
             py = ("ok", dict(bound.arguments))
         except TypeError as e:
             py = ("err", str(e))
-        malformed = bool(unknown) or npos > n
+        malformed = bool(unknown) or npos > n or (py[0] == "err" and ("too many positional" in py[1] or "unexpected keyword" in py[1]))
         try:
             out = resolve_syntatic_sugar(copy.deepcopy(lam))
         except ValueError as e:
